@@ -9,7 +9,7 @@ from ..prop import V, hx, unhx
 
 OPS = ["create", "create_bad", "create_again", "create_stored", "create_other", "server_wipe", "encrypt_empty", "gen_key", "encrypt", "upload_config", "upload_index", "search"]
 LEGAL = ["create", "gen_key", "encrypt", "upload_config", "upload_index", "search", "search"]
-BAD_CFG = ["unknown_scheme", "missing_param", "aes_key_20", "no_scheme", "scheme_lowercase", "scheme_trailing_space"]
+BAD_CFG = ["unknown_scheme", "missing_param", "aes_key_20", "no_scheme", "scheme_lowercase", "scheme_trailing_space", "numeric_string"]
 
 
 def flags_of(bits):
@@ -118,6 +118,9 @@ class C11(P.Property):
             c["scheme"] = "No.Such"
         elif kind == "missing_param":
             c.pop(sorted(k for k in c if k.startswith("param_"))[0])
+        elif kind == "numeric_string":
+            k = sorted(k for k in c if k.startswith("param_") and isinstance(c[k], int) and not isinstance(c[k], bool))[0]
+            c[k] = str(c[k])  # a hand-edited configuration file with a quoted number
         elif kind == "scheme_lowercase":
             c["scheme"] = c["scheme"].lower()  # no scheme of that spelling can be loaded
         elif kind == "scheme_trailing_space":
